@@ -919,8 +919,9 @@ def check_merge(ctx):
             for cd in p.conds:
                 x = cd.expr
                 if cd.kind == 'test' and isinstance(x, ast.Compare) and \
-                        isinstance(x.ops[0], ast.In) and U(x.left) == \
-                        '%s[0]' % sym and _names_of(en.expand(
+                        isinstance(x.ops[0], ast.In) and U(x.left) in (
+                            '%s[0]' % sym, '%s.name' % sym) and _names_of(
+                                en.expand(
                             x.comparators[0])).endswith('.file_rules'):
                     infile = cd.pol
             em = emitted(p, sym)
